@@ -898,25 +898,25 @@ def rule_G12(ctx, rule: str = "G12") -> None:
     if not loops:
         ctx.inconclusive(rule, name, f"no `async for .. in {src_param}` loop", mod.loc(fn))
         return
-    tests = []
-    for iff in ast.walk(fn):
-        if isinstance(iff, ast.If) and any(lp in list(ast.walk(b)) for lp in loops for b in iff.body):
-            tests.append((iff.test, True))
-        elif isinstance(iff, ast.If) and any(lp in list(ast.walk(b)) for lp in loops for b in iff.orelse):
-            tests.append((iff.test, False))
-    ctx.count(len(tests))
+    # every test in the function that asks whether the source is an asynchronous one (positively, to enter the async loop, or
+    # negated, to wrap a synchronous source first): the class tested must be the widest one
     bad = None
     recognised = 0
-    for t, pos in tests:
-        if isinstance(t, ast.Call) and isinstance(t.func, ast.Name) and t.func.id == "isinstance" and len(t.args) == 2 and isinstance(t.args[0], ast.Name) and t.args[0].id == src_param and pos:
+    names = {src_param}
+    for t in ast.walk(fn):
+        if isinstance(t, ast.Call) and isinstance(t.func, ast.Name) and t.func.id == "isinstance" and len(t.args) == 2 and isinstance(t.args[0], ast.Name) and t.args[0].id in names:
             classes = [ast.unparse(c).split(".")[-1] for c in (t.args[1].elts if isinstance(t.args[1], ast.Tuple) else [t.args[1]])]
+            if not any("Async" in c for c in classes):
+                continue        # a test about the synchronous protocol
             recognised += 1
             if not set(classes) & ok_wide:
-                bad = (t, classes)
-        elif isinstance(t, ast.Call) and isinstance(t.func, ast.Name) and t.func.id == "hasattr" and len(t.args) == 2 and isinstance(t.args[1], ast.Constant) and pos:
+                bad = bad or (t, classes)
+        elif isinstance(t, ast.Call) and isinstance(t.func, ast.Name) and t.func.id == "hasattr" and len(t.args) == 2 and isinstance(t.args[0], ast.Name) and t.args[0].id in names \
+                and isinstance(t.args[1], ast.Constant) and str(t.args[1].value).startswith("__a"):
             recognised += 1
             if t.args[1].value != "__aiter__":
-                bad = (t, [str(t.args[1].value)])
+                bad = bad or (t, [str(t.args[1].value)])
+    ctx.count(recognised)
     if bad:
         t, classes = bad
         ctx.refuted(rule, name, ",".join(classes), mod.loc(t), f"the asynchronous loop is taken only for `{ast.unparse(t)}`: {classes} is narrower than AsyncIterable, which MessageSource admits - an object "
@@ -1096,7 +1096,7 @@ def rule_A13(ctx, rule: str = "A13") -> None:
                         outer = next((ast.unparse(o.func) for o in ast.walk(fn) if isinstance(o, ast.Call) and o is not c and any(x is c for x in ast.walk(o))), None)
                         bad = bad or (mname, c, outer)
     ctx.count(n)
-    ctx.floor(rule, "queue gets", n, 2)
+    ctx.floor(rule, "queue gets", n, 1)
     if bad:
         m, c, outer = bad
         ctx.refuted(rule, "queue-gets-awaited-directly", f"{m}:{outer}", mod.loc(c),
